@@ -34,6 +34,7 @@ type inst =
   | Stack of scfg * sstate ref
   | Pool of pcfg * pstate ref
   | Heap of hcfg * hstate ref * hastate ref
+  | Aligned of gcfg * gstate ref
 
 let insts : (string, inst) Hashtbl.t = Hashtbl.create 16
 let handles : (int, handle) Hashtbl.t = Hashtbl.create 64
@@ -54,6 +55,7 @@ exception Fuel
 let state_string (i : inst) : string =
   match i with
   | Arena (_, s) -> dec_of_z !s.a_prev ^ " " ^ dec_of_z !s.a_curr
+  | Aligned (_, s) -> dec_of_z !s.g_arena.a_prev ^ " " ^ dec_of_z !s.g_arena.a_curr
   | Stack (_, s) -> dec_of_z !s.s_prev ^ " " ^ dec_of_z !s.s_curr
   | Pool (c, s) ->
       let n = int_of_z c.p_count in
@@ -110,6 +112,7 @@ let do_alloc (i : inst) (zero : bool) (n : z) : z =
   match i with
   | Arena (c, s) -> let (s', p) = unopt ((if zero then arena_alloc0 else arena_alloc) c !s n) in s := s'; p
   | Stack (c, s) -> let (s', p) = stack_alloc c !s n in s := s'; p
+  | Aligned (c, s) -> let (s', p) = unopt (aligned_alloc c !s n) in s := s'; p
   | Pool (c, s) -> let (s', p) = pool_alloc c !s n in s := s'; p
   | Heap (c, s, a) ->
       let (s', p) = unres (hp_alloc c !s n) in
@@ -120,6 +123,7 @@ let do_dealloc (i : inst) (p : z) : unit =
   match i with
   | Arena (c, s) -> s := unopt (arena_dealloc c !s p)
   | Stack (c, s) -> s := unopt (stack_dealloc c !s p)
+  | Aligned (c, s) -> s := unopt (aligned_dealloc c !s p)
   | Pool (c, s) -> s := unopt (pool_dealloc c !s p)
   | Heap (c, s, a) ->
       let s' = hp_dealloc !s p in
@@ -133,6 +137,7 @@ let do_realloc (i : inst) (zero : bool) (p : z) (n : z) (old : z) : z =
   match i with
   | Arena (c, s) -> let (s', q) = unopt ((if zero then arena_realloc0 else arena_realloc) c !s p n old) in s := s'; q
   | Stack (c, s) -> let (s', q) = unopt (stack_realloc c !s p n old) in s := s'; q
+  | Aligned (c, s) -> let (s', q) = unopt (aligned_realloc c !s p n old) in s := s'; q
   | Pool (c, s) -> let (s', q) = unopt (pool_realloc c !s p n old) in s := s'; q
   | Heap (c, s, a) ->
       (match hp_realloc c !s p n old, ha_realloc c !a p n old with
@@ -145,6 +150,7 @@ let do_deallocall (i : inst) : unit =
   match i with
   | Arena (_, s) -> s := arena_deallocall !s
   | Stack (_, s) -> s := stack_deallocall !s
+  | Aligned (_, s) -> s := aligned_deallocall !s
   | Pool (c, s) -> s := pool_deallocall c !s
   | Heap (_, s, a) -> s := hp_deallocall !s; a := ha_deallocall !a
 
@@ -152,59 +158,80 @@ let do_reset (i : inst) : unit =
   match i with
   | Arena (_, s) -> s := arena_init
   | Stack (_, s) -> s := stack_init
+  | Aligned (_, s) -> s := aligned_init
   | Pool (_, s) -> s := pool_init
   | Heap (_, s, a) -> s := heap_init_state; a := ha_init_state
 
 let base_of = function
-  | Arena (c, _) -> c.a_base | Stack (c, _) -> c.s_base | Pool (c, _) -> c.p_base
+  | Arena (c, _) -> c.a_base | Aligned (c, _) -> c.g_inner.a_base | Stack (c, _) -> c.s_base | Pool (c, _) -> c.p_base
   | Heap (c, _, _) -> c.h_base
 
 let four = z_of_int 4
 let wrap64 (x : z) : z = w64 x
 
+(* the primitives of an instance as closures for the extracted interface wrappers (Iface.v);
+   the state lives in the instance's refs, so the wrappers' state type is unit; a panic of a
+   primitive is the wrappers' None *)
+let p_alloc i () n = try Some ((), do_alloc i false n) with Panic -> None
+let p_dealloc i () p = try do_dealloc i p; Some () with Panic -> None
+let p_realloc i () p n o = try Some ((), do_realloc i false p n o) with Panic -> None
+let unw = function Some x -> x | None -> raise Panic
+
 let run (i : inst) (op : string) (args : string list) : string =
   let base = base_of i in
   let a k = z_of_dec (List.nth args k) in
   let h k = hget (int_of_string (List.nth args k)) in
+  let span_of hd = (hd.p, Z.div hd.sz four) in
   match op with
   | "reset" -> do_reset i; hclear (); "ok"
-  | "alloc" | "alloc0" ->
+  | "alloc" ->
       let hd = h 0 in let n = a 1 in
-      let p = do_alloc i (op = "alloc0") n in
+      let p = do_alloc i false n in
       hd.p <- p; hd.sz <- (if zeq p z0 then z0 else n); pres base p
-  | "dealloc" -> let hd = h 0 in do_dealloc i hd.p; hd.p <- z0; hd.sz <- z0; "ok"
-  | "realloc" | "realloc0" ->
+  | "alloc0" ->
       let hd = h 0 in let n = a 1 in
-      let q = do_realloc i (op = "realloc0") hd.p n hd.sz in
-      if zeq n z0 then (hd.p <- z0; hd.sz <- z0) else if not (zeq q z0) then (hd.p <- q; hd.sz <- n);
+      let (((), p), _) = unw (i_alloc0 (p_alloc i) () n) in
+      hd.p <- p; hd.sz <- (if zeq p z0 then z0 else n); pres base p
+  | "xalloc" ->
+      let hd = h 0 in let n = a 1 in
+      let ((), p) = unw (i_xalloc (p_alloc i) () n) in
+      hd.p <- p; hd.sz <- (if zeq p z0 then z0 else n); pres base p
+  | "xalloc0" ->
+      let hd = h 0 in let n = a 1 in
+      let (((), p), _) = unw (i_xalloc0 (p_alloc i) () n) in
+      hd.p <- p; hd.sz <- (if zeq p z0 then z0 else n); pres base p
+  | "new" ->
+      let hd = h 0 in let n = z_of_int 24 in
+      let (((), p), _) = unw (i_new (p_alloc i) () n) in
+      hd.p <- p; hd.sz <- n; pres base p
+  | "delete" -> let hd = h 0 in ignore (unw (i_delete (p_dealloc i) () hd.p)); hd.p <- z0; hd.sz <- z0; "ok"
+  | "dealloc" -> let hd = h 0 in do_dealloc i hd.p; hd.p <- z0; hd.sz <- z0; "ok"
+  | "realloc" | "realloc0" | "xrealloc" ->
+      let hd = h 0 in let n = a 1 in
+      let q =
+        if op = "realloc" then do_realloc i false hd.p n hd.sz
+        else if op = "xrealloc" then snd (unw (i_xrealloc (p_realloc i) () hd.p n hd.sz))
+        else (let (((), q), _) = unw (i_realloc0 (p_realloc i) () hd.p n hd.sz) in q) in
+      if zeq n z0 then (hd.p <- z0; hd.sz <- z0)
+      else if op = "xrealloc" || not (zeq q z0) then (hd.p <- q; hd.sz <- n);
       pres base q
   | "deallocall" -> do_deallocall i; hclear (); "ok"
   | "rawdealloc" -> do_dealloc i (wrap64 (zadd base (a 0))); "ok"
   | "rawrealloc" -> pres base (do_realloc i false (wrap64 (zadd base (a 0))) (a 1) (a 2))
   | "spanalloc" | "spanalloc0" ->
-      (* Allocator:spanalloc(T=uint32, size): size > 0 -> alloc(size * 4) *)
       let hd = h 0 in let n = a 1 in
-      if zeq n z0 then (hd.p <- z0; hd.sz <- z0; "nil")
-      else begin
-        let bytes = wrap64 (zmul n four) in
-        let p = do_alloc i (op = "spanalloc0") bytes in
-        hd.p <- p; hd.sz <- (if zeq p z0 then z0 else wrap64 (zmul n four)); pres base p
-      end
-  | "spandealloc" -> let hd = h 0 in (if not (zeq hd.sz z0) then do_dealloc i hd.p); hd.p <- z0; hd.sz <- z0; "ok"
+      let ((), (p, cnt)) =
+        if op = "spanalloc" then unw (i_spanalloc (p_alloc i) () four n)
+        else fst (unw (i_spanalloc0 (p_alloc i) () four n)) in
+      hd.p <- p; hd.sz <- wrap64 (zmul cnt four); pres base p ^ " n" ^ dec_of_z cnt
+  | "spandealloc" ->
+      let hd = h 0 in ignore (unw (i_spandealloc (p_dealloc i) () (span_of hd))); hd.p <- z0; hd.sz <- z0; "ok"
   | "spanrealloc" | "spanrealloc0" ->
       let hd = h 0 in let n = a 1 in
-      let zero = (op = "spanrealloc0") in
-      let oldn = Z.div hd.sz four in
-      if zeq oldn z0 && not (zeq n z0) then begin
-        let bytes = wrap64 (zmul n four) in
-        let p = do_alloc i zero bytes in
-        hd.p <- p; hd.sz <- (if zeq p z0 then z0 else bytes);
-        pres base p ^ " n" ^ dec_of_z (if zeq p z0 then z0 else n)
-      end else begin
-        let q = do_realloc i zero hd.p (wrap64 (zmul n four)) (wrap64 (zmul oldn four)) in
-        if (not (zeq n z0)) && zeq q z0 then pres base hd.p ^ " n" ^ dec_of_z oldn
-        else (hd.p <- q; hd.sz <- wrap64 (zmul n four); pres base q ^ " n" ^ dec_of_z n)
-      end
+      let ((), (p, cnt)) =
+        if op = "spanrealloc" then unw (i_spanrealloc (p_alloc i) (p_realloc i) () four (span_of hd) n)
+        else fst (unw (i_spanrealloc0 (p_alloc i) (p_realloc i) () four (span_of hd) n)) in
+      hd.p <- p; hd.sz <- wrap64 (zmul cnt four); pres base p ^ " n" ^ dec_of_z cnt
   | _ -> "?op"
 
 let () =
@@ -218,6 +245,7 @@ let () =
           | "arena" -> Arena ({ a_base = g "base"; a_size = g "size"; a_align = g "align" }, ref arena_init)
           | "stack" -> Stack ({ s_base = g "base"; s_size = g "size"; s_align = g "align" }, ref stack_init)
           | "pool" -> Pool ({ p_base = g "base"; p_chunk = g "chunk"; p_count = g "count" }, ref pool_init)
+          | "aligned" -> Aligned ({ g_inner = { a_base = g "base"; a_size = g "size"; a_align = g "ialign" }; g_align = g "align" }, ref aligned_init)
           | "heap" -> Heap ({ h_base = g "base"; h_size = g "size" }, ref heap_init_state, ref ha_init_state)
           | _ -> failwith "kind" in
         Hashtbl.replace insts name i
